@@ -474,6 +474,12 @@ func (s *Session) checkPermission(right auth.AccessRight) bool {
 		}
 	}
 
+	if s.wsconn != nil {
+		// WebSocket 会话只在接入时由 http 层验证过一次；之后用户可能被删除或重建，
+		// 按名字取当前保存的用户，而不是接入时缓存的对象
+		s.user = auth.Get(s.wsconn.Username())
+	}
+
 	if s.user == nil {
 		return false
 	}
